@@ -19,7 +19,8 @@ LEVEL = 'exploration'
 TECHNIQUE = ('exhaustive enumeration of operand/broadcast/target shapes up '
              'to 4x4 for two operators, Hypothesis-sampled operators, lifted '
              'functions and element values for the rest; differential oracle '
-             'array evaluation vs scalar evaluation of every element')
+             'array evaluation vs scalar evaluation of every element'
+             '; every case also as first evaluation of a new thread, a subset in an iterative model after set_value, sheet names that need quoting')
 LEVEL_TEXT = ('Exploration, complete over the 16 x 4 x 16 shape triples for '
               '+ and & (thorough: every operator), sampled over lifted '
               'functions and values incl. errors and text; each case is a '
